@@ -2685,6 +2685,12 @@ func (s *Server) serveConnCounted(c net.Conn, countConcurrency bool) error {
 
 		if isHead {
 			ctx.Response.SkipBody = true
+		} else if ctx.Response.SkipBody && !ctx.Response.Header.mustSkipContentLength() {
+			// The handler skips the body of a response that isn't to a HEAD
+			// request: the head announces a body that isn't sent (or no framing
+			// at all), so the peer can't find the end of this response on a
+			// kept-alive connection.
+			connectionClose = true
 		}
 
 		hijackHandler = ctx.hijackHandler
